@@ -252,3 +252,56 @@ Definition thread_sections (t : list (N * N * op)) : list (N * mstep) :=
   flat_map (fun c => map (pair (snd (fst c))) (op_sections (fst (fst c)) (snd c))) t.
 Definition thread_calls (t : list (N * N * op)) : list (N * op) :=
   map (fun c => (snd (fst c), snd c)) t.
+
+(* ------------------------------------------------------------------ part 3: inc / dec / set_position are not one bracket either *)
+(** ProgressBar::{inc, dec, set_position} (src/progress_bar.rs:243-249, 252-258, 295-301):
+        self.pos.inc(delta);  let now = Instant::now();  if self.pos.allow(now) { self.tick_inner(now); }
+    The position store and the position limiter are plain atomics touched BEFORE any lock; only
+    `tick_inner` takes the bar mutex (and inside it the MultiState lock).  The lock-footprint table
+    has no event for them, so C02_atomic_brackets_generated says nothing about these accesses.
+    [PStore o]   the atomic store of the call [o] (an OInc / ODec / OSetPos), no lock;
+    [PBracket b] the rest of the call: position limiter, then - if it agrees - the locked
+                 tick + draw (allow and tick are merged into one step here: a coarser split than
+                 the code's, enough for the witness below).
+    With ONE thread issuing position updates per bar the two sections of a call are adjacent as far
+    as that bar is concerned and [PStore o; PBracket b] IS [step o] (C02_pos_sections_adjacent).
+    With TWO writers on one bar they interleave: T1 stores, T2 stores, T2 paints, T1 paints - both
+    frames show the second value; no interleaving of the two atomic calls paints that
+    (C02_pos_sections_two_writers_refuted).  Nothing the property forbids happens (every painted
+    position is a value the counter held), but it is outside [AtomicExec]. *)
+Inductive pstep :=
+| PCall (o : op)
+| PStore (o : op)
+| PBracket (b : N).
+
+Definition pos_store (s : sys) (o : op) : sys :=
+  match o with
+  | OInc b d => upd_bar s b (fun x => set_b_pos x (wadd64 (b_pos x) d))
+  | ODec b d => upd_bar s b (fun x => set_b_pos x (wsub64 (b_pos x) d))
+  | OSetPos b p => upd_bar s b (fun x => set_b_pos x p)
+  | _ => s
+  end.
+
+Section PosSections.
+  Variable W H : N.
+  Variable fails : N -> bool.
+
+  Definition pos_bracket (s : sys) (b : N) (now : N) : sys * list termop :=
+    let '(a, ap') := ap_allow (b_ap (get_bar s b)) now in
+    let s2 := upd_bar s b (fun x => set_b_ap x ap') in
+    if a then bar_tick W H fails s2 b now else (s2, []).
+
+  Definition psec_step (s : sys) (now : N) (x : pstep) : sys * list termop :=
+    match x with
+    | PCall o => (step_sys W H fails s now o, step_out W H fails s now o)
+    | PStore o => (pos_store s o, [])
+    | PBracket b => pos_bracket s b now
+    end.
+
+  Fixpoint psec_run (s : sys) (h : list (N * pstep)) : sys * list termop :=
+    match h with
+    | [] => (s, [])
+    | (now, x) :: r => let '(s1, e1) := psec_step s now x in
+                       let '(s2, e2) := psec_run s1 r in (s2, e1 ++ e2)
+    end.
+End PosSections.
